@@ -230,6 +230,38 @@ def transcription_bounded_instance():
     return Instance('C16', PA + 'calculate_mapping', 'bounded-transcription-equality', make, call, ensures, mode='bounded', bounded_n=400, frame=False)
 
 
+def production_size_bounded_instance():
+    """Recordings of production size (hundreds of bins, thousands of frames, up to 6 classes: tens of millions of score-matrix entries):
+    the greedy aligner still follows the bin-by-bin chain of adjacent-bin assignments over the WHOLE band and restores one class order.
+    (The families above use small tensors; anything that depends on the size of the input -- blocking, chunking, caches -- shows only here.)"""
+    from pb_bss import permutation_alignment as pa
+
+    def make(B):
+        return {'shape': B.choose('shape', [(4, 513, 1500), (6, 257, 1000), (3, 1025, 1200), (5, 129, 4000)]), 'metric': B.choose('metric', ['cos', 'multiply', 'euclidean']),
+                'seed': B.choose('seed', list(range(5000))), 'd': B.given('d', np.zeros(1))}
+
+    def call(inp):
+        rng = np.random.RandomState(inp['seed'])
+        K, F, T = inp['shape']
+        owner = rng.randint(0, K, size=T)
+        owner[:K] = np.arange(K)
+        ref = (owner[None, None, :] == np.arange(K)[:, None, None]) * 0.9 + 0.05
+        ref = ref + 0.02 * rng.uniform(size=(K, F, T))
+        field = np.stack([rng.permutation(K) for _ in range(F)], axis=1)
+        mask = ref[field, np.arange(F)]
+        al = pa.GreedyPermutationAlignment(similarity_metric=inp['metric'])
+        mp = np.asarray(al.calculate_mapping(mask))
+        return {'mapping': mp, 'expected': greedy_transcription(mask, inp['metric']), 'field': field}
+
+    def ensures(sp, inp, out):
+        mp, field = out['mapping'], out['field']
+        yield 'mapping-is-the-chain-of-adjacent-bin-assignments-over-the-whole-band[%s]' % (tuple(inp['shape']),), bool(np.array_equal(mp, out['expected']))
+        comp = field[mp, np.arange(field.shape[1])]
+        yield 'class-order-constant-over-frequency', bool(np.all(comp == comp[:, :1]))
+
+    return Instance('C16', PA + 'GreedyPermutationAlignment.calculate_mapping', 'bounded-production-size', make, call, ensures, mode='bounded', bounded_n=3, frame=False)
+
+
 def restoration_bounded_instance():
     from pb_bss import permutation_alignment as pa
 
@@ -588,4 +620,5 @@ def instances(tier):
     out.append(defaults_instance())
     out.append(transcription_bounded_instance())
     out.append(restoration_bounded_instance())
+    out.append(production_size_bounded_instance())
     return out
